@@ -5,8 +5,11 @@ Starts a real gunicorn (sync worker, unix socket) mounted at SCRIPT_NAME=/app
 whose application echoes its environ, and requests a *sibling* resource
 /application/x that merely shares the leading characters of the mount point.
 """
+import os as _os
+_TREE_UNDER_TEST = _os.environ.get("GVERIF_REPO") or _os.getcwd()   # the checkout under test (was the auditing agent's scratch worktree)
+
 import sys
-sys.path.insert(0, "/tmp/wa_C15")
+sys.path.insert(0, _TREE_UNDER_TEST)
 
 import json
 import os
@@ -17,7 +20,7 @@ import subprocess
 import tempfile
 import time
 
-ROOT = "/tmp/wa_C15"
+ROOT = _TREE_UNDER_TEST
 
 APP = '''
 import json, gunicorn
